@@ -1107,3 +1107,38 @@ func lineCounterWhy(fn *ssa.Function) string {
 	}
 	return ""
 }
+
+// relTargetIsWholePath: the second argument of filepath.Rel is the path parameter itself, at most made absolute, cleaned or
+// joined behind a directory - not a part of it (Dir, Base) and not another path.
+func relTargetIsWholePath(v ssa.Value, depth int) bool {
+	if depth > 6 {
+		return false
+	}
+	switch x := v.(type) {
+	case *ssa.Parameter:
+		b, ok := x.Type().Underlying().(*types.Basic)
+		return ok && b.Kind() == types.String
+	case *ssa.Phi:
+		for _, e := range x.Edges {
+			if !relTargetIsWholePath(e, depth+1) {
+				return false
+			}
+		}
+		return len(x.Edges) > 0
+	case *ssa.Extract:
+		return relTargetIsWholePath(x.Tuple, depth+1)
+	case *ssa.Call:
+		name := calleeFullName(&x.Call)
+		if f := staticCallee(&x.Call); f != nil && inModule(f) {
+			name = FuncName(f)
+		}
+		switch name {
+		case "absPath", "path/filepath.Abs", "path/filepath.Clean", "path/filepath.FromSlash", "path/filepath.ToSlash":
+			return relTargetIsWholePath(x.Call.Args[0], depth+1)
+		case "path/filepath.Join":
+			elems, ok := variadicArgs(x.Call.Args[0])
+			return ok && len(elems) > 0 && elems[len(elems)-1] != nil && relTargetIsWholePath(elems[len(elems)-1], depth+1)
+		}
+	}
+	return false
+}
